@@ -565,6 +565,45 @@ pub fn gen(tier: &str, seed: u64, out: &mut Out) {
     }
     // (k) call-count independence (counters, sampled checks, wrap-around of generation marks): 2^16+64 / 2^20+64 calls
     push(out, json!({"ty": "f64soak", "n": if quick { 65_600 } else { 1_048_640 }, "ops": []}));
+    // (l) products of two STRUCTURED operands (a fast path keyed on the structure of both factors must still be the product):
+    //     symmetric, skew-symmetric, triangular, diagonal, tridiagonal, Toeplitz, circulant, rank one, all ones, and the
+    //     transpose of the other factor -- every ordered pair of kinds, orders 2..6
+    let structured = |rng: &mut StdRng, n: usize, kind: usize| -> Vec<i64> {
+        let mut d = vec![0i64; n * n];
+        let t: Vec<i64> = (0..2 * n).map(|_| rng.gen_range(-4..=4)).collect();
+        let u: Vec<i64> = (0..n).map(|_| rng.gen_range(-3..=3)).collect(); let w: Vec<i64> = (0..n).map(|_| rng.gen_range(-3..=3)).collect();
+        for i in 0..n { for j in 0..n { d[i * n + j] = match kind {
+            0 => 0,                                                                                   // filled below: symmetric
+            1 => 0,                                                                                   // skew-symmetric
+            2 => if j >= i { rng.gen_range(-4..=4) } else { 0 },                                      // upper triangular
+            3 => if j <= i { rng.gen_range(-4..=4) } else { 0 },                                      // lower triangular
+            4 => if i == j { rng.gen_range(-4..=4) } else { 0 },                                      // diagonal
+            5 => if (i as i64 - j as i64).abs() <= 1 { [1, -2, 1][(1 + j as i64 - i as i64) as usize] } else { 0 },   // second difference
+            6 => t[n + i - j - 1 + 1 - 1],                                                            // Toeplitz
+            7 => t[(n + j - i) % n],                                                                  // circulant
+            8 => u[i] * w[j],                                                                         // rank one
+            9 => 1,                                                                                   // all ones
+            _ => rng.gen_range(-4..=4) } } }
+        if kind == 0 || kind == 1 { for i in 0..n { for j in i..n { let v = rng.gen_range(-4..=4); d[i * n + j] = if kind == 1 && i == j { 0 } else { v }; d[j * n + i] = if kind == 1 { -d[i * n + j] } else { v }; } } }
+        d
+    };
+    for n in 2..=6usize { for ka in 0..11usize { for kb in 0..11usize {
+        if quick && (n + ka * 3 + kb) % 3 != 0 && !(ka <= 1 && kb <= 1) && !(ka == kb) { continue; }
+        let ty = TYS[(n + ka + kb) % 4]; let cx = ty == "cx";
+        let a = structured(&mut rng, n, ka);
+        // kind 10 for the second operand: the transpose of the first
+        let b = if kb == 10 { let mut t = vec![0i64; n * n]; for i in 0..n { for j in 0..n { t[i * n + j] = a[j * n + i]; } } t } else { structured(&mut rng, n, kb) };
+        let mut case = json!({"ty": ty, "init": {"r": n, "c": n, "d": a}});
+        let mk = |form: &str, b: &Vec<i64>| { let mut o = json!({"op": "matmul", "form": form, "b": {"r": n, "c": n, "d": b}}); if cx { o["bi"] = json!({"r": n, "c": n, "d": vec![0i64; n * n]}); } o };
+        if cx { case["initi"] = json!({"r": n, "c": n, "d": vec![0i64; n * n]}); }
+        let mut ops = vec![mk("ref", &b), mk("own", &b), json!({"op": "matmul_self"})];
+        let mut mv = json!({"op": "matvec", "form": "ref", "v": rand_vec_json(&mut rng, n, -4, 4)}); if cx { mv["vi"] = rand_vec_json(&mut rng, n, -4, 4); } ops.push(mv);
+        { let mut o = json!({"op": "add", "form": "ref", "b": {"r": n, "c": n, "d": b}}); if cx { o["bi"] = json!({"r": n, "c": n, "d": vec![0i64; n * n]}); } ops.push(o); }
+        ops.push(json!({"op": "transpose"}));
+        if !cx { let mut o = json!({"op": "matmul_assign", "b": {"r": n, "c": n, "d": b}}); o["form"] = json!("into"); ops.push(o); ops.push(json!({"op": "transpose"})); }
+        case["ops"] = Value::from(ops);
+        push(out, case);
+    } } }
     // (d) exact scalar division on multiples
     for _ in 0..(if quick { 20 } else { 200 }) {
         let ty = TYS[rng.gen_range(0..4)]; let s = [2i64, -2, 3, -3, 5, 7][rng.gen_range(0..6)];
